@@ -115,6 +115,7 @@ def cfg_C04(tier, rng):
               if has_orthogonal(c) or rng.random() < 0.3][:k]
     charts += gc.family_nested(rng, 120 if tier == QUICK else 1500)
     charts += gc.family_fanout(rng, 16 if tier == QUICK else 120)
+    charts += gc.family_twostep(rng, 10 if tier == QUICK else 80)
     return [dict(name='bundles', charts=charts,
                  consts=dict(MaxQ=1, MaxLevel=6 if tier == QUICK else 8),
                  variants=[dict(variant='api')],
